@@ -875,6 +875,7 @@ func consumeCase(c *ctx, kind string, f fkey, data, ext []byte, extT, tag string
 func streamMsg(c *ctx) {
 	c.beginCases("From Cose Require Import Lib.Cbor Model.GoVal Model.Key Model.Msg Model.MsgWireCorr.", "msg_case", "check_msg_case")
 	c.maxCases = 120
+	typedPayloadProduced(c) // (oracle: typed and pre-encoded payloads produced and accepted back, all six kinds)
 	saved := rand.Reader
 	defer func() { rand.Reader = saved }()
 	var pool [][]byte // produced encodings, for splices
